@@ -1,3 +1,4 @@
+use vlib::c19::C19Engine;
 use vlib::multi_eng::{C09Engine, C20Engine};
 use vlib::runner::{cli_main, Engine};
 
@@ -5,10 +6,14 @@ fn lookup(prop: &str) -> Option<Box<dyn Engine>> {
     match prop {
         "C09" => Some(Box::new(C09Engine::new())),
         "C20" => Some(Box::new(C20Engine)),
+        "C19" => Some(Box::new(C19Engine)),
         _ => None,
     }
 }
 
 fn main() {
+    if std::env::args().nth(1).as_deref() == Some("c19-mmap") {
+        std::process::exit(vlib::c19::mmap_child());
+    }
     cli_main(&lookup)
 }
